@@ -7,6 +7,7 @@ import (
 	"strings"
 	"testing"
 
+	"github.com/bilibili/gengine/builder"
 	"pgregory.net/rapid"
 
 	"verif/dsl"
@@ -58,6 +59,12 @@ func (o *C3Outer) Mix(a int8, b uint16, c float32, s string, d bool) string {
 	r := fmt.Sprintf("Outer.Mix(%d,%d,%v,%q,%v)", a, b, c, s, d)
 	o.log.Add("CALL", r, 0)
 	return r
+}
+
+// Renew replaces the nested pointer object (a later O.PIn.X must see the new one).
+func (o *C3Outer) Renew(v int64) {
+	o.log.Add("CALL", fmt.Sprintf("Outer.Renew(%d)", v), 0)
+	o.PIn = &C3Inner{Scalars: Scalars{I64: v, I8: int8(v % 100), U8: 7, F64: 0.5, Str: "renewed"}, log: o.log}
 }
 
 func (o *C3Outer) NoRes(a int) { o.log.Add("CALL", fmt.Sprintf("Outer.NoRes(%d)", a), 0) }
@@ -200,9 +207,39 @@ func (w *C03World) inject(l *obs.Log) map[string]interface{} {
 	return m
 }
 
+// C03Mut is what the host program does to the injected objects between the first and the
+// second execution on the same data context.
+type C03Mut struct {
+	SwapPIn bool    `json:"swap_pin,omitempty"`
+	NewPIn  Scalars `json:"new_pin"`
+	SetO    bool    `json:"set_o,omitempty"`
+	NewO    Scalars `json:"new_o"`
+	SetMap  bool    `json:"set_map,omitempty"`
+	MapVal  int64   `json:"map_val,omitempty"`
+}
+
 type C03Case struct {
 	World C03World  `json:"world"`
 	Rule  *dsl.Rule `json:"rule"`
+	// Rule2, if present, runs on the same data context after the host applied Mut.
+	Rule2 *dsl.Rule `json:"rule2,omitempty"`
+	Mut   C03Mut    `json:"mut"`
+}
+
+func (m *C03Mut) apply(inj map[string]interface{}, l *obs.Log) {
+	o := inj["O"].(*C3Outer)
+	if m.SwapPIn {
+		o.PIn = &C3Inner{Scalars: m.NewPIn, log: l}
+	}
+	if m.SetO {
+		o.Scalars = m.NewO
+		o.In.Scalars = m.NewPIn
+	}
+	if m.SetMap {
+		inj["msi"].(map[string]int64)["k1"] = m.MapVal
+		o.MS["k2"] = float32(m.MapVal) / 2
+		inj["sli16"].([]int16)[0] = int16(m.MapVal)
+	}
 }
 
 // smallScalars keeps values small so that most conversions are representable.
@@ -619,6 +656,10 @@ func (g *c03Gen) callExpr() *dsl.Expr {
 		g.nt["call>=2-params-of-different-classes"] = true
 		return dsl.Call("O.Mix", g.arg("int8"), g.arg("uint16"), g.arg("float32"), g.arg("string"), g.arg("bool"))
 	case 5:
+		if pct(t, g.lbl("renew"), 40) {
+			g.nt["nested-pointer-replaced-inside-the-rule"] = true
+			return dsl.Call("O.Renew", dsl.Int(int64(uni(t, g.lbl("rv"), -90, 90))))
+		}
 		return dsl.Call("O.Two", g.arg("uint32"))
 	case 6:
 		g.nt["three-level-call"] = true
@@ -675,7 +716,7 @@ func (g *c03Gen) stmts() []*dsl.Stmt {
 			g.locals[cl] = append(g.locals[cl], name)
 		default: // call
 			c := g.callExpr()
-			hasResult := !strings.HasSuffix(c.Name, "NoRes")
+			hasResult := !strings.HasSuffix(c.Name, "NoRes") && !strings.HasSuffix(c.Name, "Renew")
 			if strings.HasPrefix(c.Name, "f") {
 				var fi int
 				fmt.Sscanf(c.Name, "f%d", &fi)
@@ -701,69 +742,94 @@ func init() {
 			g := &c03Gen{t: t, w: &c.World, locals: map[byte][]string{}, nt: map[string]bool{}}
 			body := &dsl.Block{Stmts: g.stmts(), HasRet: true, Ret: dsl.Int(1)}
 			c.Rule = &dsl.Rule{Name: "c03", HasSal: true, Sal: 1, Body: body}
+			if pct(t, "second_execution", 40) {
+				// the host changes the injected objects, then a second rule runs on the same context
+				c.Mut = C03Mut{SwapPIn: pct(t, "mut_swap", 70), NewPIn: smallScalars(t, "mut.pin."), SetO: pct(t, "mut_o", 50), NewO: smallScalars(t, "mut.o."), SetMap: pct(t, "mut_map", 50), MapVal: int64(uni(t, "mut_mapval", -50, 50))}
+				g2 := &c03Gen{t: t, w: &c.World, locals: map[byte][]string{}, nt: g.nt, nOut: 100}
+				c.Rule2 = &dsl.Rule{Name: "c03b", HasSal: true, Sal: 0, Body: &dsl.Block{Stmts: g2.stmts(), HasRet: true, Ret: dsl.Int(2)}}
+			}
 			return c
 		},
 		Check: func(ci interface{}, x *Ctx) {
 			c := ci.(*C03Case)
-			text, _ := dsl.PrintRules([]*dsl.Rule{c.Rule}, nil)
+			rules := []*dsl.Rule{c.Rule}
+			if c.Rule2 != nil {
+				rules = append(rules, c.Rule2)
+				x.Class("second-execution-after-host-mutation")
+			}
+			text, _ := dsl.PrintRules(rules, nil)
 			el, rl := &obs.Log{}, &obs.Log{}
 			einj := c.World.inject(el)
 			rinj := c.World.inject(rl)
 			// static classification
-			for _, s := range c.Rule.Body.Stmts {
-				classifyC03(x, s)
+			for _, r := range rules {
+				for _, s := range r.Body.Stmts {
+					classifyC03(x, s)
+				}
 			}
-			env := ref.NewEnv(rinj, c.Rule)
-			want := env.Run()
-			if env.Unspecified != "" {
-				x.Class("skipped-unspecified:" + env.Unspecified)
-				return
-			}
-			rb, err := buildDSL(text, einj)
-			if err != nil {
-				x.Violation("compile", "generated text was rejected: %v\n%s", err, text)
-				return
-			}
-			_, _, gerr, pan := runOne(rb, c.Rule.Name)
-			ot, rt := traceStrings(el.Snapshot()), traceStrings(rl.Snapshot())
+			var rb *builder.RuleBuilder
 			fail := func(sig, f string, a ...interface{}) {
-				x.Violation(sig, f+"\nprogram:\n%s\ngengine log:   %v\nreference log: %v\nworld: %s", append(a, text, ot, rt, jsonStr(c.World))...)
+				x.Violation(sig, f+"\nprogram:\n%s\ngengine log:   %v\nreference log: %v\nworld: %s\nhost mutation before the second rule: %s", append(a, text, traceStrings(el.Snapshot()), traceStrings(rl.Snapshot()), jsonStr(c.World), jsonStr(c.Mut))...)
 			}
-			if pan != "" {
-				fail("panic:"+panicClass(pan), "Execute panicked: %s", truncate(pan, 200))
-				return
-			}
-			if want.Err != nil {
-				x.Class("expected-error:" + want.Err.Class)
-			}
-			if strings.Join(ot, " ") != strings.Join(rt, " ") {
-				i := 0
-				for i < len(ot) && i < len(rt) && ot[i] == rt[i] {
-					i++
+			for phase, r := range rules {
+				if phase == 1 {
+					c.Mut.apply(einj, el)
+					c.Mut.apply(rinj, rl)
 				}
-				what := "?"
-				if i < len(rt) {
-					what = rt[i]
-				} else if i < len(ot) {
-					what = ot[i]
+				env := ref.NewEnv(rinj, r)
+				want := env.Run()
+				if env.Unspecified != "" {
+					x.Class("skipped-unspecified:" + env.Unspecified)
+					return
 				}
-				kind := "read"
-				if strings.HasPrefix(what, "CALL") {
-					kind = "call"
+				if rb == nil {
+					var err error
+					rb, err = buildDSL(text, einj)
+					if err != nil {
+						x.Violation("compile", "generated text was rejected: %v\n%s", err, text)
+						return
+					}
 				}
-				fail("log-"+kind, "observer logs (values read, arguments received, results) diverge at entry %d", i)
-				return
-			}
-			if (want.Err != nil) != (gerr != nil) {
+				_, _, gerr, pan := runOne(rb, r.Name)
+				ot, rt := traceStrings(el.Snapshot()), traceStrings(rl.Snapshot())
+				ph := fmt.Sprintf("execution %d (rule %s): ", phase+1, r.Name)
+				if pan != "" {
+					fail("panic:"+panicClass(pan), ph+"Execute panicked: %s", truncate(pan, 200))
+					return
+				}
 				if want.Err != nil {
-					fail("value-for-error:"+want.Err.Class, "reference semantics fail (%v) but gengine succeeded", want.Err)
-				} else {
-					fail("error-for-value", "gengine failed (%s) but the reference semantics succeed", truncate(gerr.Error(), 400))
+					x.Class("expected-error:" + want.Err.Class)
 				}
-				return
-			}
-			if d := worldDiff(einj, rinj); len(d) > 0 {
-				fail("world", "final host state differs: %v", d)
+				if strings.Join(ot, " ") != strings.Join(rt, " ") {
+					i := 0
+					for i < len(ot) && i < len(rt) && ot[i] == rt[i] {
+						i++
+					}
+					what := "?"
+					if i < len(rt) {
+						what = rt[i]
+					} else if i < len(ot) {
+						what = ot[i]
+					}
+					kind := "read"
+					if strings.HasPrefix(what, "CALL") {
+						kind = "call"
+					}
+					fail("log-"+kind, ph+"observer logs (values read, arguments received, results) diverge at entry %d", i)
+					return
+				}
+				if (want.Err != nil) != (gerr != nil) {
+					if want.Err != nil {
+						fail("value-for-error:"+want.Err.Class, ph+"reference semantics fail (%v) but gengine succeeded", want.Err)
+					} else {
+						fail("error-for-value", ph+"gengine failed (%s) but the reference semantics succeed", truncate(gerr.Error(), 400))
+					}
+					return
+				}
+				if d := worldDiff(einj, rinj); len(d) > 0 {
+					fail("world", ph+"final host state differs: %v", d)
+					return
+				}
 			}
 		},
 	})
